@@ -50,10 +50,18 @@ type vRelayScen struct {
 	SeqOk    bool `json:"seqOk"`
 }
 
+// vRespScen: a ping arriving at the node under test
+type vRespScen struct {
+	Path  string `json:"path"`  // udp | tcp
+	Named string `json:"named"` // self | other | none
+	Src   string `json:"src"`   // given | absent
+}
+
 type vProbeCase struct {
 	Kind string     `json:"kind"`
 	S    vProbeScen `json:"s"`
 	R    vRelayScen `json:"r"`
+	P    vRespScen  `json:"p"`
 }
 
 type vProbeLine struct {
@@ -62,6 +70,7 @@ type vProbeLine struct {
 	Kind string     `json:"kind"`
 	S    vProbeScen `json:"s"`
 	R    vRelayScen `json:"r"`
+	P    vRespScen  `json:"p"`
 	// prober role
 	Suspect     bool  `json:"suspect"`
 	Delta       int   `json:"delta"`      // sum of the health deltas applied during the probe
@@ -78,6 +87,10 @@ type vProbeLine struct {
 	Nacks         int    `json:"nacks"`
 	NackSeqOk     bool   `json:"nackSeqOk"`
 	Note          string `json:"note"`
+	// probed role
+	RespAcks  int    `json:"respAcks"`
+	RespSeqOk bool   `json:"respSeqOk"`
+	RespTo    string `json:"respTo"` // source | sender | stream | nobody | several
 }
 
 const (
@@ -413,6 +426,99 @@ func vRunRelay(t *testing.T, s *vSink, id int, rs vRelayScen) (l vProbeLine) {
 	return l
 }
 
+// vRunResp: a ping (datagram or stream) arrives at a real node R from X; the ping may name R, another
+// node or nobody, and may carry a source (S) to answer to.
+func vRunResp(t *testing.T, s *vSink, id int, ps vRespScen) (l vProbeLine) {
+	l.Ev, l.Case, l.Kind, l.P = "ProbeCase", id, "resp", ps
+	l.S.Relays = []vRelayBeh{}
+	l.RespSeqOk, l.RespTo = true, "nobody"
+	nw := vNewNet(int64(id))
+	trR := nw.attach("R", net.IPv4(10, 0, 0, 1).To4(), 7946)
+	conf := vProbeConf("R", trR)
+	R, err := newMemberlist(conf)
+	if err != nil {
+		t.Fatal(err)
+	}
+	if err := R.setAlive(); err != nil {
+		t.Fatal(err)
+	}
+	trX := nw.attach("X", net.IPv4(10, 0, 0, 2).To4(), 7946)
+	trS := nw.attach("S", net.IPv4(10, 0, 0, 3).To4(), 7946)
+	nw.setFaults(vNetFaults{MinDelay: 100 * time.Microsecond})
+	const seq = 4711
+	pg := ping{SeqNo: seq}
+	switch ps.Named {
+	case "self":
+		pg.Node = "R"
+	case "other":
+		pg.Node = "R-before-the-restart"
+	}
+	if ps.Src == "given" {
+		pg.SourceAddr, pg.SourcePort, pg.SourceNode = trS.ip, 7946, "S"
+	}
+	note := func(to string, body []byte) {
+		var a ackResp
+		if decode(body, &a) != nil {
+			return
+		}
+		l.RespAcks++
+		if a.SeqNo != seq {
+			l.RespSeqOk = false
+		}
+		if l.RespTo != "nobody" && l.RespTo != to {
+			to = "several"
+		}
+		l.RespTo = to
+	}
+	if ps.Path == "udp" {
+		vSendRaw(trX, trR, pingMsg, &pg)
+		time.Sleep(300 * time.Millisecond)
+		synctest.Wait()
+		for _, c := range []struct {
+			tr *vSimTransport
+			to string
+		}{{trS, "source"}, {trX, "sender"}} {
+			for len(c.tr.packetCh) > 0 {
+				p := <-c.tr.packetCh
+				if typ, body := vPeel(p.Buf); typ == ackRespMsg {
+					note(c.to, body)
+				}
+			}
+		}
+	} else {
+		c1, c2 := net.Pipe()
+		trR.streamCh <- c1
+		b, _ := encode(pingMsg, &pg, false)
+		go func() { _, _ = c2.Write(b.Bytes()) }()
+		var got bytes.Buffer
+		buf := make([]byte, 4096)
+		for {
+			_ = c2.SetReadDeadline(time.Now().Add(2 * time.Second))
+			n, err := c2.Read(buf)
+			got.Write(buf[:n])
+			if err != nil {
+				break
+			}
+		}
+		_ = c2.Close()
+		synctest.Wait()
+		if typ, body := vPeel(got.Bytes()); typ == ackRespMsg {
+			note("stream", body)
+		}
+		for _, tr := range []*vSimTransport{trS, trX} {
+			for len(tr.packetCh) > 0 {
+				p := <-tr.packetCh
+				if typ, body := vPeel(p.Buf); typ == ackRespMsg {
+					note("several", body)
+				}
+			}
+		}
+	}
+	_ = R.Shutdown()
+	_ = s
+	return l
+}
+
 func TestVerifProbeScenarios(t *testing.T) {
 	cases, trace := os.Getenv("VERIF_CASES"), os.Getenv("VERIF_TRACE")
 	if cases == "" || trace == "" {
@@ -464,6 +570,8 @@ func TestVerifProbeScenarios(t *testing.T) {
 				var l vProbeLine
 				if all[i].Kind == "relay" {
 					l = vRunRelay(t, s, ids[i], all[i].R)
+				} else if all[i].Kind == "resp" {
+					l = vRunResp(t, s, ids[i], all[i].P)
 				} else {
 					l = vRunProbe(t, s, ids[i], all[i].S)
 				}
